@@ -636,7 +636,7 @@ def gen_options(rng, cfg, rate=0.3, grid=False):
         elif r < 0.87:
             out["tau"] = enc(rng.choice([1e-30 * s, 1e-170, 5e-324, 1e-160 * beta]))  # tau*tau underflows
         else:
-            out["tau"] = rng.choice([1, 2, 3]) if 0.2 <= s <= 50 else enc(beta)
+            out["tau"] = rng.choice([1, 2, 3, True]) if 0.2 <= s <= 50 else enc(beta)  # True == 1: a bool is an int
     if rng.random() < rate:
         out["limit_sigma"] = rng.random() < 0.5
     return out
